@@ -98,11 +98,8 @@ def callees(prog: Program, rep) -> None:
     sign_table(prog, rep, li, "self.cons_jac.T.dot(self.cons)", {"at_lower": "minimum", "at_upper": "maximum"}, "infeasibility-projection-signs", init_zero=False)
     from .c13 import active_set_masks
     active_set_masks(prog, rep)
-    isf = it.methods["is_feasible"]
-    tol = [p for p in isf.params if p != "self"][0]
-    rs = returns_of(isf)
-    ok = len(rs) == 1 and set(atoms_of(facts_for(isf).resolved(rs[0], rs[0].value), True)) == {("<=", "self.cons_violation", tol), ("<=", "self.bound_violation", tol)}
-    rep.check(ok, "is-feasible", isf.qualname, short(rs[0]) if rs else "", "is_feasible(tol) is cons_violation <= tol and bound_violation <= tol", isf.loc())
+    from .c13 import is_feasible_rule
+    is_feasible_rule(prog, rep, "is-feasible")
     # timer
     tm = prog.cls("pygradflow.timer.Timer")
     rt = prog.lookup_method(tm, "reached_time_limit")
@@ -119,10 +116,13 @@ def callees(prog: Program, rep) -> None:
     v = single(el)
     rep.check(v is not None and U(v) == "time.time() - self.start", "timer", el.qualname, U(v) if v is not None else "", "elapsed() is time.time() - start", el.loc())
     init = prog.lookup_method(tm, "__init__")
-    tl = [U(n.value) for n in own_nodes(init.node) if isinstance(n, ast.Assign) and any(is_self_attr(t, "time_limit") for t in n.targets)]
+    fin = facts_for(init)
+    tl = [U(fin.resolved(s.stmt, s.stmt.value)) for s in fin.order if isinstance(s.stmt, ast.Assign) and any(is_self_attr(t, "time_limit") for t in s.stmt.targets)]
     rep.check(tl == [[p for p in init.params if p != "self"][0]], "timer", init.qualname, "self.time_limit", "Timer stores the time limit it is given", init.loc())
     sinit = prog.func("pygradflow.timer.SimpleTimer.__init__")
-    st = [U(n.value) for n in own_nodes(sinit.node) if isinstance(n, ast.Assign) and any(is_self_attr(t, "start") for t in n.targets)]
+    fsi = facts_for(sinit)
+    st = [U(fsi.resolved(s.stmt, s.stmt.value)) for s in fsi.order if isinstance(s.stmt, (ast.Assign, ast.AnnAssign)) and s.stmt.value is not None
+          and any(is_self_attr(t, "start") for t in (s.stmt.targets if isinstance(s.stmt, ast.Assign) else [s.stmt.target]))]
     rep.check(st == ["time.time()"], "timer", sinit.qualname, "self.start", "the timer starts at time.time() of its construction", sinit.loc())
     writers = [(f, n) for f in prog.iter_functions() if prog.in_scope(f) for n in own_nodes(f.node)
                if isinstance(n, ast.Attribute) and isinstance(n.ctx, ast.Store) and n.attr in ("start", "time_limit") and f.cls is not None
